@@ -4,7 +4,37 @@ open PcbV PcbV.IntOps
 
 def showN (r : R Nat) : String := showR toString r
 
+/-- FOR operand: `l<value>` or `v<slot>` -/
+def parseOperand (w : String) : Option ForOperand :=
+  match w.toList with
+  | 'l' :: r => (String.ofList r).toNat?.bind (fun v => if v < 65536 then some (.lit v) else none)
+  | 'v' :: r => (String.ofList r).toNat?.map .var
+  | _ => none
+
+def parseNats (w : String) : Option (List Nat) :=
+  if w == "-" then some [] else (w.splitOn ",").mapM (fun x => x.toNat?.bind (fun v => if v < 65536 then some v else none))
+
+/-- body assignments: `<slot>=<value>` (X = value) or `<slot>+<value>` (X = X + value), comma-separated -/
+def parseAssign (w : String) : Option ForAssign :=
+  match w.splitOn "=", w.splitOn "+" with
+  | [a, b], _ => match a.toNat?, b.toNat? with
+    | some a, some b => if b < 65536 then some ⟨a, false, b⟩ else none
+    | _, _ => none
+  | _, [a, b] => match a.toNat?, b.toNat? with
+    | some a, some b => if b < 65536 then some ⟨a, true, b⟩ else none
+    | _, _ => none
+  | _, _ => none
+
+def parseAssigns (w : String) : Option (List ForAssign) :=
+  if w == "-" then some [] else (w.splitOn ",").mapM parseAssign
+
 def handle : List String → String
+  | ["forenv", fuel, frm, a, b, s, env, asg] =>
+    match fuel.toNat?, frm.toNat?, parseOperand a, parseOperand b, parseOperand s, parseNats env, parseAssigns asg with
+    | some fuel, some frm, some a, some b, some s, some env, some asg =>
+      let (tr, st) := forLoopEnv asg frm fuel env a b s
+      "ok " ++ showNats tr ++ " " ++ st
+    | _, _, _, _, _, _, _ => "bad-op"
   | [op, a, b] =>
     match a.toNat?, b.toNat? with
     | some a, some b =>
